@@ -3,6 +3,7 @@ import Spine.IsRnd
 import Spine.Dur
 import Spine.TimePeriod
 import Spine.DurText
+import Spine.TimeText
 open Spine Spine.Num
 /-! Line protocol for the numeric / temporal models of C19. One op per line, one answer per line.
     Member of the model family: command-line arguments `trunc=0|1 inexact=0|1` or the op `cfg t i`.
@@ -75,6 +76,36 @@ partial def digestDurText (z z1 step : Int) (h : UInt64) (cnt : Nat) : UInt64 ×
     | none => -9223372036854775808
   digestDurText (z + step) z1 step (mixI h back) (cnt + 1)
 
+
+/-! instants at the level of the text (`Spine.TimeText`) -/
+
+def layoutsOf (w : String) : List (List TimeText.Elem) := (w.splitOn "|").map fun l => TimeText.lex (textOf l)
+
+def showInstant : Option TimeText.Instant → String
+  | some i => s!"{i.sec} {i.ns} {i.off}"
+  | none => "err"
+
+/-- `GetTime` over the layouts `ls` (all inside the model, else `range`) -/
+def answerGet (ls : List (List TimeText.Elem)) (t : DurText.Text) : String :=
+  if !(ls.all (TimeText.supported true)) then "range" else showInstant (TimeText.getTime ls t)
+
+def answerNew (es : List TimeText.Elem) (rounds utc : Bool) (sec : Int) (ns : Nat) (off : Int) : Option DurText.Text :=
+  if !(TimeText.supported false es) || ns ≥ 1000000000 then none
+  else TimeText.newDateTimeTypeFromTime es rounds utc sec ns off
+
+/-- digest over the texts written for `sec = s, s+step, … ≤ s1` and what `GetTime` reads them as -/
+partial def digestInstants (fes : List TimeText.Elem) (ls : List (List TimeText.Elem)) (rounds utc : Bool)
+    (s s1 step : Int) (ns : Nat) (off : Int) (h : UInt64) (cnt : Nat) : Except String (UInt64 × Nat) :=
+  if s > s1 then .ok (h, cnt) else
+  match answerNew fes rounds utc s ns off with
+  | none => .error s!"range {s}"
+  | some t =>
+    let h := t.foldl mix h
+    let h := match TimeText.getTime ls t with
+      | some i => mixI (mix (mixI h i.sec) i.ns) i.off
+      | none => mix h 7
+    digestInstants fes ls rounds utc (s + step) s1 step ns off h (cnt + 1)
+
 /-- `-`, `r:<ns>` or `a:<ns>` -/
 def parseT (w : String) : Option TP.T :=
   if w == "-" then some .none else
@@ -146,6 +177,26 @@ def answer (cfg : Cfg) (ws : List String) : Cfg × String :=
       let (h, n) := digestDur z0 z1 step (UInt64.ofNat 1469598103934665603) 0
       (cfg, s!"digest {h.toNat} {n}")
     | _, _, _ => (cfg, "bad-op")
+  | ["tfmt", l, sec, ns, off] => match sec.toInt?, ns.toNat?, off.toInt? with
+    | some sec, some ns, some off =>
+      let es := TimeText.lex (textOf l)
+      if !(TimeText.supported false es) || ns ≥ 1000000000 then (cfg, "range") else
+      (cfg, match TimeText.format es sec ns off with | some t => strOf t | none => "range")
+    | _, _, _ => (cfg, "bad-op")
+  | ["tparse", ls, w] => (cfg, answerGet (layoutsOf ls) (textOf w))
+  | ["tnew", l, r, u, sec, ns, off] => match r.toNat?, u.toNat?, sec.toInt?, ns.toNat?, off.toInt? with
+    | some r, some u, some sec, some ns, some off =>
+      (cfg, match answerNew (TimeText.lex (textOf l)) (r != 0) (u != 0) sec ns off with | some t => strOf t | none => "range")
+    | _, _, _, _, _ => (cfg, "bad-op")
+  | ["tsweep", l, ls, r, u, s0, s1, step, ns, off] =>
+    match r.toNat?, u.toNat?, s0.toInt?, s1.toInt?, step.toInt?, ns.toNat?, off.toInt? with
+    | some r, some u, some s0, some s1, some step, some ns, some off =>
+      let pls := layoutsOf ls
+      if step ≤ 0 then (cfg, "bad-op") else if !(pls.all (TimeText.supported true)) then (cfg, "range") else
+      match digestInstants (TimeText.lex (textOf l)) pls (r != 0) (u != 0) s0 s1 step ns off (UInt64.ofNat 1469598103934665603) 0 with
+      | .ok (h, n) => (cfg, s!"digest {h.toNat} {n}")
+      | .error e => (cfg, e)
+    | _, _, _, _, _, _, _ => (cfg, "bad-op")
   | ["endof", now, d] => match now.toInt?, d.toInt? with
     | some now, some d => (cfg, toString (TP.endOf now d))
     | _, _ => (cfg, "bad-op")
